@@ -298,6 +298,11 @@ def run(chk, repo, tier):
     chk.clause('C04-c', 'every shift implementation is additive in the incoming shift', 4)
     chk.clause('C04-d', 'all tilts are folded / concatenated / attached', 3)
     chk.clause('C04-e', 'shift conservation: integer part to the window, sub-pixel part to the transform', 6)
+    from .common import Remap as _Remap
+    from . import c01 as _c01
+    from .c06 import insert_rules as _insert_rules
+    _c01.run_check(_Remap(chk, {'C01-a': 'C04-e', 'C01-d': 'C04-e'}), repo, tier)
+    _insert_rules(chk, repo, 'C04-e')
     chk.clause('C04-f', 'fit_tilt removes tip and tilt (not piston) and records exactly those coefficients', 4)
     chk.clause('C04-g', 'reader/writer slot agreement of Plane.tilt', 1)
     chk.clause('C04-h', 'first-order dispersion is inverted exactly; displacement lies on the trace', 3)
